@@ -10,7 +10,7 @@ class Mgr:
     observation helpers (truth tables by walking succ())."""
 
     def __init__(self, ctx, label, nv, order=None, full=True, aged=False, m=0,
-                 session=None):
+                 session=None, keep_order=False):
         self.ctx = ctx
         self.nv = nv
         self.m = m
@@ -21,6 +21,9 @@ class Mgr:
         self.held = []
         if aged:
             self.held = gen.age(self.s, m, ctx.rng, nv, steps=12)
+            if keep_order:
+                # the history moved levels: put the requested order back
+                self.s.op(m, 'reorder', {v: l for v, l in zip(self.names, order)})
 
     @property
     def b(self):
